@@ -207,8 +207,8 @@ Fixpoint values_match (F : list str) (fs : list str) : bool :=
 (* which stored rules a filter keeps: only the policy types p and g are filtered; a G filter
    that is empty or all blank keeps every g rule (no length clause then) *)
 Definition rule_kept (P G : list str) (key : str) (fs : list str) : bool :=
-  if str_eqb key s_p then values_match P fs
-  else if str_eqb key s_g then forallb is_blank G || values_match G fs
+  if str_eqb key s_g then forallb is_blank G || values_match G fs
+  else if str_eqb key s_p then values_match P fs
   else true.
 
 (* the rules the complete store (the file) holds for assertion a / the filtered subset of them *)
@@ -217,6 +217,61 @@ Definition subset_rules (text : str) (P G : list str) (a : ast) : list (list str
   filter (rule_kept P G (a_key a)) (stored_rules text a).
 Definition with_rules (f : ast -> list (list str)) (m : model) : model :=
   map (fun a => {| a_sec := a_sec a; a_key := a_key a; a_pol := a_pol a ++ f a |}) m.
+
+(* "the loaded policy is a partial view of the store" as a history (ghost) variable: set by a
+   filtered load with a non-empty filter and by any load that raised half-way, cleared by a full
+   load_policy or an empty-filter load that succeeded *)
+Definition ghost_next (partial : bool) (o : op) (r : result unit) : bool :=
+  match o, r with
+  | OLoad, Ok _ => false
+  | OLoad, Err _ => partial                 (* load_policy works on a copy: the view is unchanged *)
+  | OFiltered P G, Ok _ => negb (is_empty_filter P G)
+  | OFiltered P G, Err c =>
+      if c =? EGroupArity then negb (is_empty_filter P G)   (* raised after the adapter was done *)
+      else true                                            (* cleared, then only partly reloaded *)
+  | OIncr P G, Ok _ => negb (is_empty_filter P G)
+  | OIncr P G, Err c =>
+      if c =? EGroupArity then negb (is_empty_filter P G)
+      else partial                                         (* the view only grew *)
+  | OSave, _ => partial
+  end.
+
+(* the ghost value before each step of a trace *)
+Fixpoint ghosts (partial : bool) (tr : list (state * op * state * result unit)) : list bool :=
+  match tr with
+  | [] => []
+  | (_, o, _, r) :: rest => partial :: ghosts (ghost_next partial o r) rest
+  end.
+
+Definition is_load (o : op) : bool := match o with OSave => false | _ => true end.
+
+(* every non-blank filter value equals (trimmed) the field at its position *)
+Definition matches (F fields : list str) : Prop :=
+  forall i, (i < length F)%nat ->
+    is_blank (nth i F []) = true \/ strip (nth i F []) = strip (nth i fields []).
+
+(* m' has the same policy types as m and every rule list of m is a prefix of the one in m' *)
+Definition grows (m m' : model) : Prop :=
+  Forall2 (fun a a' => a_sec a' = a_sec a /\ a_key a' = a_key a /\ exists x, a_pol a' = a_pol a ++ x) m m'.
+
+(* one step of a trace respects the store: while the flag is set a save attempt raises and changes
+   nothing; and the file only ever changes by a save performed with the flag cleared *)
+Definition step_safe (x : state * op * state * result unit) : Prop :=
+  let '(s, o, s', r) := x in
+  (s_flag s = true -> o = OSave -> r = Err EFilteredSave /\ s' = s)
+  /\ (s_file s' <> s_file s -> o = OSave /\ s_flag s = false /\ r = Ok tt).
+
+(* no load operation of the trace raised *)
+Definition loads_ok (tr : list (state * op * state * result unit)) : Prop :=
+  Forall (fun x => let '(_, o, _, r) := x in is_load o = true -> r = Ok tt) tr.
+
+(* before this step: a partial view implies the flag *)
+Definition guarded (x : (state * op * state * result unit) * bool) : Prop :=
+  let '((s, _, _, _), partial) := x in partial = true -> s_flag s = true.
+
+(* the links of exactly the g rules of m: each rule's first `count` fields, per role definition *)
+Definition links_spec (counts : list (str * nat)) (m : model) : links_t :=
+  map (fun a => (a_key a, map (firstn (count_of counts (a_key a))) (a_pol a))) (g_asts m).
 
 (* lines on which the filter's naive comma split and the loader's bracket-aware split coincide:
    no bracket at all and a non-blank first field (comments and empty lines are fine) *)
@@ -261,12 +316,13 @@ Definition oracle_C12 (tag : N) (v : val) : val :=
       | Some l, Some p, Some g => vbool (filter_line l p g)
       | _, _, _ => vbad
       end
-  (* spec: [text; P; G; model] -> [plain_text; model + subset_rules; model + stored_rules; empty filter] *)
+  (* spec: [text; P; G; model] -> [plain_text; model + subset_rules; model + stored_rules; empty filter; in line grammar] *)
   | 3, VL [t; p; g; m] =>
       match as_str t, as_strs p, as_strs g, as_model m with
       | Some t, Some p, Some g, Some m =>
           VL [vbool (plain_text t); vmodel (with_rules (subset_rules t p g) m);
-              vmodel (with_rules (stored_rules t) m); vbool (is_empty_filter p g)]
+              vmodel (with_rules (stored_rules t) m); vbool (is_empty_filter p g);
+              vbool (forallb line_ok (file_lines t))]
       | _, _, _, _ => vbad
       end
   | 4, VL [p; g; k; fs] =>
